@@ -799,6 +799,10 @@ class Interp:
                         go = True
                     elif z3.is_false(cs):
                         go = False
+                    elif not self.ctx.feasible(z3.Not(cs)):
+                        go = True             # the test is decided by the path condition (e.g. a stored key assumed non-empty)
+                    elif not self.ctx.feasible(cs):
+                        go = False
                     else:
                         raise Undecided("while loop at line %d of %s needs an invariant" % (st.lineno, fr.qual))
                 if not go:
@@ -870,7 +874,35 @@ class Interp:
         self.exec_block(st.orelse, fr)
 
     def s_With(self, st, fr):
-        raise Undecided("with statement")
+        """with m1 as x, m2 ...: body -- __enter__ results bound, body run, __exit__(None, None, None) on normal exit, return, break
+        or continue; on an exception __exit__(type, value, None) is called and its result is NOT allowed to be truthy (a suppressing
+        context manager is outside the subset: Undecided).  Only context managers that are model objects (ext) or interpreted
+        classes are supported."""
+        entered = []
+        for item in st.items:
+            mgr = self.eval(item.context_expr, fr)
+            if not isinstance(mgr, Ref) or mgr.kind not in ("ext", "obj"):
+                raise Undecided("with statement over %r" % (mgr,))
+            val = self.call_value(self.getattr(mgr, "__enter__", fr), [], {}, fr, st)
+            entered.append(mgr)
+            if item.optional_vars is not None:
+                self.assign(item.optional_vars, val, fr)
+
+        def leave(exc=None):
+            for mgr in reversed(entered):
+                a = [None, None, None] if exc is None else [getattr(exc.exc, "cls", None), exc.exc, None]
+                r = self.call_value(self.getattr(mgr, "__exit__", fr), a, {}, fr, st)
+                if exc is not None and r not in (None, False):
+                    raise Undecided("context manager may suppress an exception")
+        try:
+            self.exec_block(st.body, fr)
+        except PyExc as pe:
+            leave(pe)
+            raise
+        except (ReturnSig, BreakSig, ContinueSig):
+            leave()
+            raise
+        leave()
 
     # ------------------------------------------------------------------ assignment
     def assign(self, target, v, fr):
@@ -1081,7 +1113,7 @@ class Interp:
 
     def e_JoinedStr(self, e, fr):
         parts = []
-        symbolic = False
+        symbolic = opaque = False
         for v in e.values:
             if isinstance(v, ast.Constant):
                 parts.append(v.value)
@@ -1089,10 +1121,16 @@ class Interp:
                 x = self.eval(v.value, fr)
                 if isinstance(x, (int, str, float)) and not isinstance(x, bool) and v.conversion == -1 and v.format_spec is None:
                     parts.append(str(x))
-                else:
+                elif isinstance(x, SV) and x.ty == "str" and v.conversion == -1 and v.format_spec is None:
+                    parts.append(x)          # a text formats as itself: the f-string is the exact concatenation
                     symbolic = True
-        if symbolic:
+                else:
+                    opaque = True
+        if opaque:
             return self.ctx.fresh("str", "fstr")
+        if symbolic:
+            terms = [p.t if isinstance(p, SV) else z3.StringVal(p) for p in parts if isinstance(p, SV) or p]
+            return SV(z3.Concat(*terms) if len(terms) > 1 else terms[0], "str")
         return "".join(parts)
 
     def e_Lambda(self, e, fr):
